@@ -9,6 +9,7 @@ import (
 	"encoding/json"
 	"flag"
 	"fmt"
+	"math/rand"
 	"os"
 	"path"
 	"sort"
@@ -25,6 +26,7 @@ import (
 	"github.com/tikv/pd/server/schedule/hbstream"
 	"github.com/tikv/pd/server/schedule/operator"
 	"github.com/tikv/pd/server/schedulers"
+	"github.com/tikv/pd/server/statistics"
 	"go.uber.org/zap"
 
 	"pdverif/internal/coqfmt"
@@ -45,12 +47,13 @@ type regionSpec struct {
 }
 
 type action struct {
-	Kind   string           // "put" | "scatter" | "apply" (install the last scatter result in the cluster) | "schedule"
-	Region int              // index into Regions
+	Kind   string // "put" | "scatter" | "apply" (install the last scatter result in the cluster) | "schedule"
+	Region int    // index into Regions
 	Group  string
-	Stores []uint64         // put: the stores; Stores[0] is the leader
-	Sched  string           // schedule: scheduler type
+	Stores []uint64 // put: the stores; Stores[0] is the leader
+	Sched  string   // schedule: scheduler type
 	Args   []string
+	Hot    []int // schedule (hot-region, shuffle-hot-region): regions reported as write hot spots before
 }
 
 type history struct {
@@ -79,7 +82,7 @@ func (rs regionSpec) build() *core.RegionInfo {
 
 // ---------- generation ----------
 
-func genRegions(r *rng.R, spec gen10.ClusterSpec, n int, healthy bool) []regionSpec {
+func genRegions(r *rng.R, spec gen10.ClusterSpec, n int, healthy bool, scatterMode bool) []regionSpec {
 	var out []regionSpec
 	var ord, tf []uint64
 	for _, s := range spec.Stores {
@@ -94,6 +97,9 @@ func genRegions(r *rng.R, spec gen10.ClusterSpec, n int, healthy bool) []regionS
 		} else {
 			ord = append(ord, s.ID)
 		}
+	}
+	if len(ord) == 0 {
+		ord, tf = tf, nil
 	}
 	next := uint64(3001)
 	for i := 0; i < n; i++ {
@@ -126,7 +132,7 @@ func genRegions(r *rng.R, spec gen10.ClusterSpec, n int, healthy bool) []regionS
 		if spec.Cfg.Rules && len(tf) > 0 && r.Pct(70) {
 			rs.Peers = append(rs.Peers, gen10.PeerSpec{ID: next, Store: tf[r.Intn(len(tf))], Role: 1})
 			next++
-		} else if !healthy && r.Pct(8) && k < len(ord) {
+		} else if !scatterMode && r.Pct(20) && k < len(ord) {
 			rs.Peers = append(rs.Peers, gen10.PeerSpec{ID: next, Store: perm[k], Role: 1})
 			next++
 		}
@@ -154,6 +160,47 @@ func genHistory(r *rng.R, scatter bool) history {
 	if scatter && h.Spec.Cfg.MaxReplicas > 4 {
 		h.Spec.Cfg.MaxReplicas = 3 + r.Intn(2) // keep the number of processing orders small
 	}
+	if !scatter {
+		for i := range h.Spec.Stores {
+			switch r.Pick(50, 25, 25) {
+			case 1:
+				h.Spec.Stores[i].Leaders, h.Spec.Stores[i].Regions = 150+r.Intn(100), 300+r.Intn(200)
+			case 2:
+				h.Spec.Stores[i].Leaders, h.Spec.Stores[i].Regions = r.Intn(3), r.Intn(10)
+			}
+		}
+		if h.Spec.Cfg.Rules && r.Pct(60) {
+			// two tiflash stores, so that a learner can be balanced from one to the other
+			for k := 0; k < 2; k++ {
+				i := r.Intn(len(h.Spec.Stores))
+				has := false
+				for _, l := range h.Spec.Stores[i].Labels {
+					if l[0] == "engine" {
+						has = true
+					}
+				}
+				ordLeft := 0
+				for _, st := range h.Spec.Stores {
+					e := false
+					for _, l := range st.Labels {
+						if l[0] == "engine" {
+							e = true
+						}
+					}
+					if !e {
+						ordLeft++
+					}
+				}
+				if !has && ordLeft > 2 {
+					h.Spec.Stores[i].Labels = append(h.Spec.Stores[i].Labels, [2]string{"engine", "tiflash"})
+					h.Spec.Stores[i].State, h.Spec.Stores[i].HB, h.Spec.Stores[i].Busy = 0, 0, false
+				}
+			}
+		}
+		if len(h.Spec.Cfg.RejectLeader) == 0 && r.Pct(35) {
+			h.Spec.Cfg.RejectLeader = [][2]string{{"zone", "z" + fmt.Sprint(1+r.Intn(3))}}
+		}
+	}
 	h.Spec.Rules = nil // the default rule (voters = max-replicas) plus, with tiflash stores, one learner rule (below)
 	if h.Spec.Cfg.Rules {
 		for _, s := range h.Spec.Stores {
@@ -166,7 +213,7 @@ func genHistory(r *rng.R, scatter bool) history {
 			}
 		}
 	}
-	h.Regions = genRegions(r, h.Spec, 4+r.Intn(10), scatter || r.Pct(60))
+	h.Regions = genRegions(r, h.Spec, 4+r.Intn(10), scatter || r.Pct(60), scatter)
 	if scatter {
 		groups := []string{"g1", "g2", ""}
 		for i := r.Intn(4); i > 0; i-- { // earlier decisions recorded through the exported Put
@@ -191,7 +238,7 @@ func genHistory(r *rng.R, scatter bool) history {
 		}
 	} else {
 		for i := 2 + r.Intn(3); i > 0; i-- {
-			a := action{Kind: "schedule", Sched: schedTypes[r.Pick(25, 20, 12, 10, 8, 8, 7, 5, 3, 2)]}
+			a := action{Kind: "schedule", Sched: schedTypes[r.Pick(22, 18, 11, 9, 8, 8, 7, 5, 6, 6)]}
 			st := h.Spec.Stores[r.Intn(len(h.Spec.Stores))].ID
 			switch a.Sched {
 			case schedulers.EvictLeaderType, schedulers.GrantLeaderType:
@@ -202,6 +249,11 @@ func genHistory(r *rng.R, scatter bool) history {
 				a.Args = nil
 			default:
 				a.Args = []string{"", ""}
+			}
+			if a.Sched == schedulers.HotRegionType || a.Sched == schedulers.ShuffleHotRegionType {
+				for k := 2 + r.Intn(3); k > 0; k-- {
+					a.Hot = append(a.Hot, r.Intn(len(h.Regions)))
+				}
 			}
 			h.Actions = append(h.Actions, a)
 		}
@@ -379,6 +431,28 @@ func runHistory(h history, emit emitFn, hidx int) []string {
 			coq := fmt.Sprintf("(Case SScatter\n   %s\n   %s %s\n   %s\n   %s)", stores, labels, coqRegion(region), opS, so)
 			emit(coq, coq, true, tags, viol)
 		case "schedule":
+			if len(a.Hot) > 0 {
+				// report write hot spots the way PD's own hot-region tests do (voters only; the region is re-created)
+				tc.SetHotRegionCacheHitsThreshold(0)
+				lead := map[uint64]int{}
+				for _, ri := range a.Hot {
+					rg := regions[ri]
+					var fol []uint64
+					for _, p := range rg.GetVoters() {
+						if p.GetStoreId() != rg.GetLeader().GetStoreId() {
+							fol = append(fol, p.GetStoreId())
+						}
+					}
+					iv := uint64(statistics.WriteReportInterval)
+					tc.AddLeaderRegionWithWriteInfo(rg.GetID(), rg.GetLeader().GetStoreId(), 512*1024*iv, 0, iv, fol)
+					regions[ri] = tc.GetRegion(rg.GetID())
+					lead[rg.GetLeader().GetStoreId()]++
+				}
+				for _, st := range tc.GetStores() {
+					tc.UpdateStorageWrittenBytes(st.GetID(), uint64(1+3*lead[st.GetID()])*1024*1024*statistics.StoreHeartBeatReportInterval)
+				}
+				stores = bt.CoqStores()
+			}
 			hb := hbstream.NewTestHeartbeatStreams(ctx, tc.ID, tc, false)
 			oc := schedule.NewOperatorController(ctx, tc, hb)
 			var dec schedule.ConfigDecoder
@@ -427,6 +501,7 @@ func main() {
 	replay := flag.String("replay", "", "json file with histories: run and print what the implementation answers")
 	flag.Parse()
 	log.ReplaceGlobals(zap.NewNop(), nil)
+	rand.Seed(int64(*seed)) // PD's own uses of math/rand (RandomPick, Rand*Region); Go map order stays free: the models are set-valued
 
 	R := res.New("C11", *seed, *tier)
 	R.Rule = "histories on generated clusters (3-8 stores with every state the filters read, labels, optional tiflash stores and placement rules, 4-13 regions): " +
